@@ -67,12 +67,12 @@ def select(ovs, prop, tier, only):
     return hs
 
 
-def run_group(scratch, crate, harnesses, cbmc_args, jobs, timeout, tag, tdir_tag=None):
+def run_group(scratch, crate, harnesses, cbmc_args, jobs, timeout, tag, tdir_tag=None, kani_extra=""):
     """One cargo-kani invocation. Returns (json or None, log text, seconds, returncode)."""
     cwd = os.path.join(scratch, "core") if crate == "core" else scratch
     out_json = os.path.join(scratch, f"kani-{tag}.json")
     tdir = os.path.join(scratch, f"target-{tdir_tag or crate}")
-    cmd = ["cargo", "kani"] + KANI_FLAGS + ["--target-dir", tdir, "-j", str(jobs), "--output-format=terse",
+    cmd = ["cargo", "kani"] + KANI_FLAGS + kani_extra.split() + ["--target-dir", tdir, "-j", str(jobs), "--output-format=terse",
                                             "--harness-timeout", f"{timeout}s", "--export-json", out_json]
     cmd += ["--exact"]
     for h in harnesses:
@@ -99,10 +99,10 @@ def run_group(scratch, crate, harnesses, cbmc_args, jobs, timeout, tag, tdir_tag
     return data, text, dt, rc, " ".join(cmd)
 
 
-def codegen_only(scratch, tdir_tag, crate, harnesses):
+def codegen_only(scratch, tdir_tag, crate, harnesses, kani_extra=""):
     cwd = os.path.join(scratch, "core") if crate == "core" else scratch
     tdir = os.path.join(scratch, f"target-{tdir_tag}")
-    cmd = ["cargo", "kani"] + KANI_FLAGS + ["--target-dir", tdir, "--only-codegen", "--exact"]
+    cmd = ["cargo", "kani"] + KANI_FLAGS + kani_extra.split() + ["--target-dir", tdir, "--only-codegen", "--exact"]
     for h in harnesses:
         cmd += ["--harness", h.qual]
     p = subprocess.run(cmd, cwd=cwd, env=ENV, stdout=subprocess.PIPE, stderr=subprocess.STDOUT, text=True, timeout=1800)
@@ -278,14 +278,19 @@ def run_native(scratch, crate, file_rel, harness_name, tests, timeout=600):
             f.write(src)
 
 
-def playback(scratch, h, timeout=300):
+RESOLVED_UNWINDSET = {}
+
+
+def playback(scratch, h, timeout=None):
     """Phase 2 for a refuted harness: ask Kani for concrete tests and run them natively on the real code."""
+    timeout = timeout or int(os.environ.get("VERIF_PLAYBACK_TIMEOUT", "300"))
     cwd = os.path.join(scratch, "core") if h.crate == "core" else scratch
     tdir = os.path.join(scratch, f"target-{h.crate}-pb")
-    cmd = ["cargo", "kani"] + KANI_FLAGS + ["-Z", "concrete-playback", "--concrete-playback=print", "--target-dir", tdir,
+    cmd = ["cargo", "kani"] + KANI_FLAGS + h.kani.split() + ["-Z", "concrete-playback", "--concrete-playback=print", "--target-dir", tdir,
                                             "--exact", "--harness", h.qual, "--harness-timeout", f"{timeout}s"]
-    if h.cbmc:
-        cmd += ["--cbmc-args"] + h.cbmc.split()
+    extra = (h.cbmc.split() if h.cbmc else []) + (["--unwindset", RESOLVED_UNWINDSET[h.name]] if RESOLVED_UNWINDSET.get(h.name) else [])
+    if extra:
+        cmd += ["--cbmc-args"] + extra
     out = {"cmd": " ".join(cmd), "tests": [], "native": None}
     try:
         p = subprocess.run(cmd, cwd=cwd, env=ENV, stdout=subprocess.PIPE, stderr=subprocess.STDOUT, text=True, timeout=timeout + 120)
@@ -361,7 +366,7 @@ def main():
         special = [h for h in hs if h.unwindset]
         for h in hs:
             if not h.unwindset:
-                groups.setdefault((h.crate, h.cbmc), []).append(h)
+                groups.setdefault((h.crate, h.cbmc, h.kani), []).append(h)
         results = {}
         cmds = []
         logs = []
@@ -372,29 +377,31 @@ def main():
         def run_special():
             # harnesses with per-loop unwind bounds: one codegen for all of them, then one invocation each
             out = []
-            for crate in sorted({h.crate for h in special}):
-                sh = [h for h in special if h.crate == crate]
-                rc0, out0 = codegen_only(scratch, crate + "-s", crate, sh)
+            for crate, kx in sorted({(h.crate, h.kani) for h in special}):
+                sh = [h for h in special if h.crate == crate and h.kani == kx]
+                stag = crate + "-s" + (str(abs(hash(kx)) % 1000) if kx else "")
+                rc0, out0 = codegen_only(scratch, stag, crate, sh, kx)
                 if rc0 != 0:
                     out.append((None, None, out0, 0, 2, "", f"codegen for per-loop-unwind harnesses of {crate} failed"))
                     continue
 
-                def one(h):
-                    us, note = loop_labels(scratch, crate + "-s", h)
+                def one(h, crate=crate, kx=kx, stag=stag):
+                    us, note = loop_labels(scratch, stag, h)
                     if us is None:
                         return (h, None, f"[runner] {h.name}: {note}", 0, 2, "", f"{h.name}: {note}")
                     tmo = min(h.timeout or DEFAULT_TIMEOUT[tier], int(os.environ.get("VERIF_HARNESS_TIMEOUT", "100000")))
+                    RESOLVED_UNWINDSET[h.name] = us
                     data, text, dt, rc, cmd = run_group(scratch, crate, [h], ((h.cbmc + " " if h.cbmc else "") + ("--unwindset " + us if us else "")).strip(), 1, tmo,
-                                                        f"{crate}-{h.name}", tdir_tag=crate + "-s")
+                                                        f"{crate}-{h.name}", tdir_tag=stag, kani_extra=kx)
                     return (h, data, text, dt, rc, cmd, None)
                 with ThreadPoolExecutor(max_workers=per_group_jobs) as ex:
                     out += list(ex.map(one, sh))
             return ("special", out)
 
         def run_normal(item):
-            gi, ((crate, cbmc), ghs) = item
+            gi, ((crate, cbmc, kx), ghs) = item
             tmo = min(max([h.timeout for h in ghs] + [0]) or DEFAULT_TIMEOUT[tier], int(os.environ.get("VERIF_HARNESS_TIMEOUT", "100000")))
-            data, text, dt, rc, cmd = run_group(scratch, crate, ghs, cbmc, per_group_jobs, tmo, f"{crate}-{gi}", tdir_tag=f"{crate}-{gi}")
+            data, text, dt, rc, cmd = run_group(scratch, crate, ghs, cbmc, per_group_jobs, tmo, f"{crate}-{gi}", tdir_tag=f"{crate}-{gi}", kani_extra=kx)
             return ("normal", (gi, crate, ghs, data, text, dt, rc, cmd))
 
         tasks = []
